@@ -325,10 +325,27 @@ YR_API int yr_rules_scan_proc(
 
 int yr_rules_from_arena(YR_ARENA* arena, YR_RULES** rules)
 {
+  // An arena loaded from a damaged file can have any number of buffers of any
+  // size, make sure that it has the sections and the tables announced by the
+  // summary before using them.
+  if (arena->num_buffers != YR_NUM_SECTIONS ||
+      arena->buffers[YR_SUMMARY_SECTION].used < sizeof(YR_SUMMARY))
+    return ERROR_CORRUPT_FILE;
+
   YR_SUMMARY* summary = (YR_SUMMARY*) yr_arena_get_ptr(
       arena, YR_SUMMARY_SECTION, 0);
 
   if (summary == NULL)
+    return ERROR_CORRUPT_FILE;
+
+  if (arena->buffers[YR_RULES_TABLE].used / sizeof(YR_RULE) <=
+          summary->num_rules ||
+      arena->buffers[YR_STRINGS_TABLE].used / sizeof(YR_STRING) <
+          summary->num_strings ||
+      arena->buffers[YR_NAMESPACES_TABLE].used / sizeof(YR_NAMESPACE) <
+          summary->num_namespaces ||
+      arena->buffers[YR_EXTERNAL_VARIABLES_TABLE].used <
+          sizeof(YR_EXTERNAL_VARIABLE))
     return ERROR_CORRUPT_FILE;
 
   YR_RULES* new_rules = (YR_RULES*) yr_malloc(sizeof(YR_RULES));
